@@ -920,3 +920,62 @@ def interrupted_extension_advertises_nothing(ctx, rule='interrupted-extension-ad
                   'the new dimension is advertised before the last call that can reach a user operator')
     if n < 2:
         raise AnalysisBroken('only %d factorize_from members analysed' % n)
+
+
+def projection_coefficient_orientation(ctx, rule='inner-product-conjugates-the-basis-vector', min_instances=4):
+    """The adaptor's form <x, y> = x^H B y is conjugate-linear in its FIRST argument.  The component of a vector f along a
+    (B-orthonormal) basis vector v is <v, f>; the entries of the projected matrix are H(j, i) = <v_j, A v_i>.  With the arguments
+    exchanged the value is the complex conjugate: invisible for real scalars (all the tests that reach these lines), while for
+    complex Hermitian problems a projection `f -= <f, v> v` doubles the imaginary part of the component instead of removing it --
+    the new basis vector is not orthogonal to V and V'BV = I, A V = V H + f e' are lost.  Every call of inner_product in the
+    factorization classes whose two arguments are different objects must therefore have a view of the basis (the basis field,
+    a Map / column local that aliases it, or the basis parameter of expand_basis) as its first argument and something that is
+    not the basis, or an earlier column of it, as its second."""
+    n = 0
+    seen = set()
+    for fn in ctx.F.concrete():
+        if (fn.cls or '') not in ('Spectra::Arnoldi', 'Spectra::Lanczos') or fn.mangled in seen or not fn.cfg:
+            continue
+        seen.add(fn.mangled)
+        fe = ctx.E.of(fn)
+
+        def is_basis(node):
+            r = fn.root_of(node)
+            if r == ('field', 'm_fac_V'):
+                return True
+            if r is not None and r[0] == 'local':
+                if fe.alias.get(r[1], ())[:1] == ('m_fac_V',):
+                    return True
+                loc = fn.locals[r[1]]
+                # the basis handed to expand_basis: a matrix-typed parameter (Map<const Matrix>)
+                if r[1] in fn.params and 'Eigen::Map<const Eigen::Matrix' in loc.get('type', '') and ', -1, -1' in loc.get('type', '').replace('Eigen::Dynamic', '-1'):
+                    return True
+            return False
+        for x in fn.walk():
+            if not (x['k'] == 'CXXMemberCallExpr' and x.get('callee') == 'inner_product'):
+                continue
+            a = fn.call_args(x)
+            if len(a) != 2:
+                continue
+            ta, tb = sym(fn, a[0], inline=False), sym(fn, a[1], inline=False)
+            if ta == tb:
+                continue            # <x, x>: real, orientation-free
+            # Lanczos (Hermitian operator): the diagonal entry <v, A v> is real up to rounding, its orientation changes nothing
+            # beyond the sign of an imaginary rounding residue -- not demanded
+            par = [p_ for p_ in fn.ancestors(x) if p_['k'] in ('CXXOperatorCallExpr', 'BinaryOperator') and p_.get('op') == '=']
+            if fn.cls == 'Spectra::Lanczos' and par:
+                pa = fn.call_args(par[0]) if par[0]['k'] == 'CXXOperatorCallExpr' else [fn.nodes[c] for c in par[0]['c']]
+                tl = sym(fn, pa[0], inline=False)
+                if tl[0] == '()' and tl[1] == ('F', 'm_fac_H') and len(tl) == 4 and tl[2] == tl[3] and {is_basis(a[0]), is_basis(a[1])} == {True, False}:
+                    continue
+            n += 1
+            first, second = is_basis(a[0]), is_basis(a[1])
+            ok = first
+            inst = '%s::%s' % (fn.cls.replace('Spectra::', ''), fn.name)
+            ctx.check(ok, rule, inst, fn.qname,
+                      '`%s`: the conjugated (first) argument is a view of the basis' % fn.s(x['id'])[:60] if ok else
+                      '`%s` at %s: the conjugated (first) argument `%s` is not a view of the basis%s -- the value is the complex conjugate of the component along the basis vector; '
+                      'exact for real scalars, wrong for complex Hermitian problems (the projection doubles the imaginary part instead of removing it)' %
+                      (fn.s(x['id'])[:60], fn.loc(x), fn.s(a[0])[:30], ' while the second one is' if second else ''))
+    if n < min_instances:
+        raise AnalysisBroken('only %d oriented inner products found in the factorization classes (expected >= %d)' % (n, min_instances))
